@@ -100,6 +100,10 @@ func (fn ClusterRoleRenderFn) RenderClusterRoles(pr *v1.ProviderRevision, rs []R
 func Setup(mgr ctrl.Manager, o controller.Options) error {
 	name := "rbac-roles/" + strings.ToLower(v1.ProviderRevisionGroupKind)
 
+	sfh := &EnqueueRequestForAllRevisionsInFamily{
+		client: mgr.GetClient(),
+	}
+
 	if o.AllowClusterRole == "" {
 		r := NewReconciler(mgr,
 			WithLogger(o.Logger.WithValues("controller", name)),
@@ -109,6 +113,7 @@ func Setup(mgr ctrl.Manager, o controller.Options) error {
 			Named(name).
 			For(&v1.ProviderRevision{}).
 			Owns(&rbacv1.ClusterRole{}).
+			Watches(&v1.ProviderRevision{}, sfh).
 			WithOptions(o.ForControllerRuntime()).
 			Complete(ratelimiter.NewReconciler(name, errors.WithSilentRequeueOnConflict(r), o.GlobalRateLimiter))
 	}
@@ -116,10 +121,6 @@ func Setup(mgr ctrl.Manager, o controller.Options) error {
 	wrh := &EnqueueRequestForAllRevisionsWithRequests{
 		client:          mgr.GetClient(),
 		clusterRoleName: o.AllowClusterRole,
-	}
-
-	sfh := &EnqueueRequestForAllRevisionsInFamily{
-		client: mgr.GetClient(),
 	}
 
 	r := NewReconciler(mgr,
